@@ -152,7 +152,8 @@ def cfun(f) -> str:
 
 
 def cscenario(sc) -> str:
-    return ('{| sc_funs := [' + ';\n   '.join(cfun(f) for f in sc['funs']) + '];\n   sc_driver := [' +
+    disp = '; '.join(f'({q(n)}, [' + '; '.join(q(x) for x in impls) + '])' for n, impls in sc.get('dispatch', []))
+    return ('{| sc_funs := [' + ';\n   '.join(cfun(f) for f in sc['funs']) + f'];\n   sc_dispatch := [{disp}];\n   sc_driver := [' +
             '; '.join(caction(a) for a in sc['driver']) + '] |}')
 
 
